@@ -14,6 +14,10 @@ Computes bootstrap supports of reftree branches, given trees in boottrees channe
 func FBP(reftree *tree.Tree, boottrees <-chan tree.Trees, cpus int, sup *Supporter) error {
 	var err error
 
+	// At least one thread
+	if cpus < 1 {
+		cpus = 1
+	}
 	if err = reftree.ReinitIndexes(); err != nil {
 		return err
 	}
